@@ -383,6 +383,10 @@ func (w *World) GenerateSpecs() error {
 					continue
 				}
 				si = &sigInfo{}
+				if closure != "" {
+					// parameters of the function literal are not named here; captured variables are
+					si.params = append(si.params, fc.FreeVars...)
+				}
 				if closure == "" {
 					if fd.Recv != nil {
 						r := fieldListDecls(fset, fd.Recv, "recv", 0)
@@ -439,6 +443,35 @@ func (w *World) GenerateSpecs() error {
 				fc.AllocBound = c.SpecFn
 			}
 			for _, ls := range fc.Loops {
+				for _, m := range ls.Modifies {
+					ms := parseModEntry(m)
+					ls.ModSpecs = append(ls.ModSpecs, ms)
+					if ms.Expr == "" {
+						continue
+					}
+					n++
+					ms.SpecFn = fmt.Sprintf("spec__%s__loop%d_mod_%d", identOf(fc.Key), ls.N, n)
+					info := &SpecFnInfo{Name: ms.SpecFn}
+					var ps []string
+					shadow := map[string]bool{}
+					for _, v := range ls.Vars {
+						shadow[v.Name] = true
+					}
+					for i, p := range si.params {
+						pn := p.Name
+						if shadow[pn] {
+							pn = "_"
+						}
+						ps = append(ps, pn+" "+p.Type)
+						info.Args = append(info.Args, SpecArg{"param", i, p.Name, p.Type})
+					}
+					for i, v := range ls.Vars {
+						ps = append(ps, v.Name+" "+v.Type)
+						info.Args = append(info.Args, SpecArg{"var", i, v.Name, v.Type})
+					}
+					fmt.Fprintf(&body, "func %s(%s) {\n\tspec_ref(%s)\n}\n\n", ms.SpecFn, strings.Join(ps, ", "), ms.Expr)
+					w.SpecInfo[ms.SpecFn] = info
+				}
 				for _, c := range ls.Invariants {
 					if err := emit(fc, c, fmt.Sprintf("loop%d_inv", ls.N), si, false, ls.Vars); err != nil {
 						return err
